@@ -376,7 +376,9 @@ func (r *reader) _readEvent(canary byte) (m Message, err error) {
 			m = mm
 
 		default:
-			panic(fmt.Sprintf("must not happen: invalid canary % X", canary))
+			// a data byte without running status or a system common / realtime
+			// status: malformed input, not a programming error
+			return m, fmt.Errorf("invalid status byte % X in track data", canary)
 		}
 
 		// on a voice/channel category message with status either given or cached (running status)
